@@ -537,10 +537,16 @@ fn typeref(s: &S) -> TypeRef {
 }
 
 fn sc<T: SchemaStatementBuilder>(b: B, s: &T) -> String {
-    match b {
-        B::My => s.to_string(MysqlQueryBuilder),
-        B::Pg => s.to_string(PostgresQueryBuilder),
-        B::Sl => s.to_string(SqliteQueryBuilder),
+    // the three public entry points of a schema statement (generic to_string / build, dynamic build_any) render the
+    // same text; which one a case goes through is salted with the case line
+    match (crate::exprs::shash(&S::A("schema-entry".to_string())) % 3, b) {
+        (0, B::My) => s.to_string(MysqlQueryBuilder),
+        (0, B::Pg) => s.to_string(PostgresQueryBuilder),
+        (0, B::Sl) => s.to_string(SqliteQueryBuilder),
+        (1, B::My) => s.build(MysqlQueryBuilder),
+        (1, B::Pg) => s.build(PostgresQueryBuilder),
+        (1, B::Sl) => s.build(SqliteQueryBuilder),
+        (_, _) => s.build_any(b.sb()),
     }
 }
 
